@@ -14,3 +14,4 @@ INVARIANT SingleStepKeepsTheDesign
 INVARIANT GainModeHasNoSweep
 INVARIANT PowersReported
 INVARIANT NeverAboveMaximum
+PROPERTY SweepTouchesOnlyThePathAmplifiers
